@@ -210,8 +210,18 @@ func writeJSON(path string, v any) error {
 	return os.Rename(tmp, path)
 }
 
+var exitHooks []func()
+
+// OnExit registers a function to run when a batch ends (e.g. cache saves).
+func OnExit(f func()) { exitHooks = append(exitHooks, f) }
+
 // Main is called from each check's TestCheck.
 func Main(t *testing.T, c *Check) {
+	defer func() {
+		for _, f := range exitHooks {
+			f()
+		}
+	}()
 	if c.Name == "" {
 		c.Name = c.ID
 	}
